@@ -26,40 +26,41 @@ def ensure_tuple(value: str | tuple[str, ...]) -> tuple[str, ...]:
     return value
 
 
-def _hash_code(h: Any, code: Any) -> None:
-    """Mix a code object, and the code objects nested in it, into hash ``h``."""
-    h.update(code.co_code)
+def _code_fingerprint(code: Any) -> tuple:
+    """Everything a code object says, as a nested tuple of bytes, str and tuples.
 
-    # The bytecode refers to attributes, globals and locals by index only:
-    # x.upper() and x.lower() compile to the same co_code. Hash the name tables too.
-    h.update(repr((code.co_names, code.co_varnames)).encode())
-
-    # Serialize co_consts deterministically. Nested code objects (lambdas, inner
-    # functions, comprehensions) have an address-bearing repr: hash their own
-    # content instead, their name alone does not tell two lambdas apart.
-    for const in code.co_consts:
-        if hasattr(const, "co_code"):
-            h.update(b"<code " + const.co_name.encode() + b">")
-            _hash_code(h, const)
-        else:
-            h.update(repr(const).encode())
-        h.update(b",")
+    The bytecode refers to attributes, globals and locals by index only
+    (x.upper() and x.lower() compile to the same co_code), so the name tables
+    are part of it. Nested code objects (lambdas, inner functions,
+    comprehensions) have an address-bearing repr and a name that does not tell
+    two lambdas apart: they are described by their own content.
+    """
+    consts = tuple(
+        ("code", const.co_name, _code_fingerprint(const)) if hasattr(const, "co_code") else ("const", repr(const)) for const in code.co_consts
+    )
+    return (code.co_code, code.co_names, code.co_varnames, consts)
 
 
-def _hash_runtime_bindings(h: Any, func: Callable) -> None:
-    """Mix what a function object carries beyond its code into hash ``h``."""
-    # Include function defaults to distinguish f(x=1) from f(x=2)
-    h.update(repr(getattr(func, "__defaults__", None)).encode())
-    h.update(repr(getattr(func, "__kwdefaults__", None)).encode())
+def _binding_fingerprint(func: Callable) -> tuple:
+    """What a function object carries beyond its code: defaults and captured values.
 
-    # Include closure values to distinguish functions with different captured variables
-    closure = getattr(func, "__closure__", None)
-    if closure:
-        for cell in closure:
-            try:
-                h.update(repr(cell.cell_contents).encode())
-            except ValueError:
-                h.update(b"<empty_cell>")
+    One source text can define many functions: a factory's inner function
+    differs only in what it captured, `def f(x=K)` only in the default
+    evaluated at definition time. Each captured value is a separate item:
+    concatenating their reprs would make (1, 23) and (12, 3) look alike.
+    """
+    cells: list[str | None] = []
+    for cell in getattr(func, "__closure__", None) or ():
+        try:
+            cells.append(repr(cell.cell_contents))
+        except ValueError:
+            cells.append(None)  # empty cell
+    return (repr(getattr(func, "__defaults__", None)), repr(getattr(func, "__kwdefaults__", None)), tuple(cells))
+
+
+def _digest(description: tuple) -> str:
+    """SHA256 of a nested tuple of str / bytes / None: its repr is unambiguous."""
+    return hashlib.sha256(repr(description).encode()).hexdigest()
 
 
 def hash_definition(func: Callable) -> str:
@@ -86,21 +87,12 @@ def hash_definition(func: Callable) -> str:
     except (OSError, TypeError):
         source = None
     if source is not None:
-        # One source text can define many functions: a factory's inner function
-        # differs only in what it captured, `def f(x=K)` only in the default
-        # evaluated at definition time. Those are different definitions.
-        h = hashlib.sha256(source.encode())
-        _hash_runtime_bindings(h, func)
-        return h.hexdigest()
+        return _digest(("source", source, _binding_fingerprint(func)))
 
     # Bytecode fallback — for exec/eval/Jupyter-defined functions
     code = getattr(func, "__code__", None)
     if code is not None:
-        h = hashlib.sha256()
-        _hash_code(h, code)
-        _hash_runtime_bindings(h, func)
-
-        return h.hexdigest()
+        return _digest(("code", _code_fingerprint(code), _binding_fingerprint(func)))
 
     # Name-based fallback — for builtins/C extensions/functools.partial
     module = getattr(func, "__module__", "") or ""
